@@ -134,6 +134,7 @@ type State struct {
 	lockSnap  map[*Term]*Heap
 	stackObjs []stackObj
 	visits    map[*ssa.BasicBlock]int
+	escaped   map[*Term]bool // fresh references that were stored into the heap or passed to a call
 }
 
 type stackObj struct {
@@ -161,6 +162,12 @@ func (st *State) clone() *State {
 	}
 	n.trace = append([]Event(nil), st.trace...)
 	n.stackObjs = append([]stackObj(nil), st.stackObjs...)
+	if st.escaped != nil {
+		n.escaped = map[*Term]bool{}
+		for k, v := range st.escaped {
+			n.escaped[k] = v
+		}
+	}
 	if st.visits != nil {
 		n.visits = map[*ssa.BasicBlock]int{}
 		for k, v := range st.visits {
@@ -615,7 +622,27 @@ func (x *fnCtx) load(st *State, a *Addr) *Val {
 	return v
 }
 
+func (st *State) markEscaped(v *Val) {
+	if v == nil {
+		return
+	}
+	for _, e := range v.Tup {
+		st.markEscaped(e)
+	}
+	for _, l := range v.L {
+		if st.fresh[l] {
+			if st.escaped == nil {
+				st.escaped = map[*Term]bool{}
+			}
+			st.escaped[l] = true
+		}
+	}
+}
+
 func (x *fnCtx) store(st *State, a *Addr, v *Val) {
+	if !(st.fresh[a.Base] && !st.escaped[a.Base]) {
+		st.markEscaped(v) // storing into an unpublished object of this call publishes nothing
+	}
 	ls := layout(a.Elem)
 	if len(ls) != len(v.L) {
 		panic(fmt.Sprintf("store layout mismatch: %s <- %s", typeStr(a.Elem), v))
@@ -686,6 +713,10 @@ func (x *fnCtx) assumeAllocated(st *State, r *Term) {
 		return
 	}
 	alloc := x.heapArr(st, "$alloc", ArrSort(SInt, SBool))
+	// a value read from a heap component that still has its entry value existed at entry
+	if r.Kind == KBuiltin && r.Op == "select" && r.Args[0].Kind == KSym && strings.HasPrefix(r.Args[0].Op, "H.") && !strings.ContainsAny(r.Args[0].Op, "@!") && len(st.frames) > 0 && st.frames[0].oldHeap != nil {
+		alloc = hget(st.frames[0].oldHeap, "$alloc", ArrSort(SInt, SBool))
+	}
 	st.assume(Or(Eq(r, IntLit(0)), Select(alloc, r)))
 	st.assume(Le(IntLit(0), r))
 }
@@ -760,7 +791,11 @@ func (x *fnCtx) havocAllHeap(st *State, why string, passed ...*Val) {
 			passedRef[l] = true
 		}
 		if v.Fn != nil {
-			for _, b := range v.Fn.Bindings {
+			for i, b := range v.Fn.Bindings {
+				// a captured variable that the closure only reads is not modified through it
+				if i < len(v.Fn.Fn.FreeVars) && closureOnlyReads(v.Fn.Fn, v.Fn.Fn.FreeVars[i]) {
+					continue
+				}
 				mark(b)
 			}
 		}
@@ -794,4 +829,25 @@ func kindLayer(kind string) string {
 		return "lock"
 	}
 	return "contract"
+}
+
+// closureOnlyReads: the closure never stores through the captured variable's cell and never
+// lets its address escape (it only loads it).
+func closureOnlyReads(fn *ssa.Function, fv *ssa.FreeVar) bool {
+	refs := fv.Referrers()
+	if refs == nil {
+		return false
+	}
+	for _, r := range *refs {
+		switch u := r.(type) {
+		case *ssa.UnOp:
+			if u.Op != token.MUL {
+				return false
+			}
+		case *ssa.DebugRef:
+		default:
+			return false
+		}
+	}
+	return true
 }
